@@ -71,31 +71,33 @@ def case(lim, tr, to, conns, ops, seed):
 
 
 PAIRS = ["rr", "ro", "or", "oo"]
+PAIRS12 = ["rR", "rO", "oR", "oO"]       # TLS 1.2 clients
 
 
 def poll_cases(ctx):
     out = []
     sd = ctx.rng.randrange(1, 1 << 30)
-    # F1. timeout exactness
-    for pair in PAIRS + ["rn", "on"]:
+    # F1. timeout exactness: every acceptor x client pair (TLS 1.3 and TLS 1.2 clients: 2 resp. 3 client flights), the client
+    # stalls after j rounds of (client flight, server poll)
+    for pair in PAIRS + PAIRS12 + ["rn", "on"]:
         for T in [100, 500, 1000, 3000, 5000]:
             tr, to = (T, 7777) if pair[0] == "r" else (7777, T)
-            stalls = [0] if pair[1] == "n" else [0, 1]
+            stalls = [0] if pair[1] == "n" else [0, 1, 2, 3]
             for j in stalls:
-                pre = ["S0"] * j
+                pre = ["S0", "P0"] * j
                 out.append(case(1, tr, to, [pair], ["R", "C0", "R"] + pre + ["P0", "A%d" % (T - 1), "P0", "A1", "P0", "D0", "R"], sd))
                 out.append(case(1, tr, to, [pair], ["C0", "A%d" % (T // 2)] + pre + ["P0", "A%d" % (T - T // 2 - 1), "P0", "P0", "A1", "P0", "D0"], sd))
                 out.append(case(1, tr, to, [pair], ["C0", "A%d" % (T + 5)] + pre + ["P0", "D0"], sd))            # first poll after the deadline
                 out.append(case(1, tr, to, [pair], ["C0", "A%d" % T] + pre + ["P0", "D0"], sd))                  # first poll exactly at it
                 out.append(case(1, tr, to, [pair], ["C0"] + pre + ["P0", "A%d" % (2 * T), "A5", "P0", "D0"], sd))  # overshoot in one step
                 out.append(case(2, tr, to, [pair], ["C0"] + pre + ["P0", "D0", "A%d" % (T + 1), "R"], sd))        # dropped: no late wake
-            if pair[1] != "n":
-                # the handshake completes in the poll after the deadline has passed: it wins
-                out.append(case(1, tr, to, [pair], ["C0", "S0", "P0", "A%d" % (T + 10), "S0", "P0", "E0", "D0"], sd))
-                out.append(case(1, tr, to, [pair], ["C0", "S0", "P0", "S0", "A%d" % (T - 1), "P0", "E0", "D0"], sd))
-                out.append(case(1, tr, to, [pair], ["C0", "S0", "P0", "A%d" % (T + 10), "X0", "P0", "D0"], sd))   # late disconnect: Tls, not Timeout
-                out.append(case(1, tr, to, [pair], ["C0", "S0", "P0", "X0", "A%d" % (T - 1), "P0", "D0"], sd))
-            else:
+                if pair[1] != "n" and j >= 1:
+                    # the client's last flights arrive only after the deadline: the handshake completing in that late poll wins
+                    out.append(case(1, tr, to, [pair], ["C0"] + pre + ["A%d" % (T + 10)] + ["S0", "P0"] * (4 - j) + ["E0", "D0"], sd))
+                    out.append(case(1, tr, to, [pair], ["C0"] + pre + ["A%d" % (T - 1)] + ["S0", "P0"] * (4 - j) + ["E0", "D0"], sd))
+                    out.append(case(1, tr, to, [pair], ["C0"] + pre + ["A%d" % (T + 10), "X0", "P0", "D0"], sd))   # late disconnect: Tls, not Timeout
+                    out.append(case(1, tr, to, [pair], ["C0"] + pre + ["X0", "A%d" % (T - 1), "P0", "D0"], sd))
+            if pair[1] == "n":
                 out.append(case(1, tr, to, [pair], ["C0", "P0", "A%d" % (T + 10), "G0", "P0", "D0"], sd))          # late garbage: Tls
                 out.append(case(1, tr, to, [pair], ["C0", "G0", "P0", "D0"], sd))
                 out.append(case(1, tr, to, [pair], ["C0", "P0", "X0", "A%d" % (T + 10), "P0", "D0"], sd))
@@ -134,7 +136,10 @@ def poll_cases(ctx):
     for i in range(6 if ctx.tier == "quick" else 40):
         for a in PAIRS:
             for b in PAIRS:
-                ops = ["R", "C0", "Ro", "C1", "S0", "S1", "P0", "P1", "R", "S0", "S1", "P0", "P1", "S0", "S1", "P0", "P1", "E0", "E1", "D1", "R", "D0", "Ro"]
+                ops = ["R", "C0", "Ro", "C1", "S0", "S1", "P0", "P1", "R", "S0", "S1", "P0", "P1", "S0", "S1", "P0", "P1", "S0", "S1", "P0", "P1",
+                       "E0", "E1", "D1", "R", "D0", "Ro"]
+                if i % 2:
+                    a, b = a[0] + a[1].upper(), b[0] + b[1].upper()     # TLS 1.2 clients
                 out.append(case(2, 3000, 5000, [a, b], ops, sd + 17 * i + len(out)))
     # F4. random scripts
     nr = 1500 if ctx.tier == "quick" else 30000
@@ -147,7 +152,7 @@ def random_script(rng):
     lim = rng.choice([1, 1, 2, 2, 3])
     n = rng.randint(1, 5)
     tr, to = rng.choice([100, 250, 1000, 3000, 5000]), rng.choice([100, 400, 1000, 2000, 5000])
-    conns = [rng.choice("ro") + rng.choice("rroon") for _ in range(n)]
+    conns = [rng.choice("ro") + rng.choice("rroonRO") for _ in range(n)]
     called, dropped, steps = set(), set(), {k: 0 for k in range(n)}
     ops = []
     L = rng.randint(6, 40)
@@ -295,7 +300,7 @@ def e2e_cases(ctx):
             used.add(arr)
             act = rng.choice("fffghx-")
             delay = rng.choice([0, 3, 11, 53, 211, 997, 2503, 6007]) + rng.randrange(0, 3)
-            acc, kind = rng.choice("ro"), rng.choice("ro")
+            acc, kind = rng.choice("ro"), rng.choice("rroRO")
             conns.append("%s%s:%d:%d:%s" % (acc, kind, arr, delay, act))
         c = "lim=%d;tr=%d;to=%d;conns=%s;seed=%d" % (lim, tr, to, ",".join(conns), rng.randrange(1, 1 << 30))
         try:
